@@ -186,3 +186,45 @@ Proof.
   destruct (c =? 45); [|destruct (c =? 43)]; intros H; eapply parse_loop_wf in H; eauto; try lia;
     try (intros _ Hpt; discriminate); try (intros Hb; apply Hsm; [cbn [List.length]; lia|exact Hb]).
 Qed.
+
+(* ---- products of non-zero operands are non-zero ---- *)
+Lemma least_d_minimal fuel : forall v d0 d', d0 <= d' -> d' < least_d fuel v d0 -> B96 <= v / pow10 d'.
+Proof.
+  induction fuel as [|f IH]; intros v d0 d' Hle Hlt; cbn [least_d] in Hlt; [lia|].
+  destruct (N.ltb_spec (v / pow10 d0) B96) as [Hok|Hbig]; [lia|].
+  destruct (N.eq_dec d' d0) as [->|Hne]; [exact Hbig|]. apply (IH v (d0 + 1) d'); lia.
+Qed.
+Lemma rhe_ge v p : p <> 0 -> v / p <= rhe v p.
+Proof. intros Hp. unfold rhe. cbv zeta. destruct (_ || _); lia. Qed.
+
+Lemma rescale_nz v s m' s' : v <> 0 -> s <= 28 -> rescale v s = Some (m', s') -> m' <> 0.
+Proof.
+  intros Hv Hs. unfold rescale. replace (s - 28) with 0 by lia. set (d := least_d 64 v 0). cbv zeta.
+  destruct (s <? d); [discriminate|].
+  destruct (N.eqb_spec d 0) as [Hz|Hnz]; [intros H; injection H as <- <-; exact Hv|].
+  assert (Hbig : 1 <= v / pow10 d).
+  { assert (Hm : B96 <= v / pow10 (d - 1)) by (apply (least_d_minimal 64 v 0); unfold d in *; lia).
+    unfold pow10 in *. replace d with ((d - 1) + 1) at 1 by lia. rewrite N.pow_add_r, <- N.div_div by (try apply pow10_nz; discriminate).
+    change (10 ^ 1) with 10. unfold B96 in Hm.
+    assert (H10 : 10 <= v / 10 ^ (d - 1)) by lia. apply N.div_le_lower_bound; lia. }
+  pose proof (rhe_ge v (pow10 d) (pow10_nz d)) as Hge.
+  destruct (N.ltb_spec (rhe v (pow10 d)) B96) as [Hfit|Hov].
+  - intros Hx. injection Hx as <- <-. lia.
+  - destruct (s - d =? 0); [discriminate|]. intros Hx. injection Hx as <- <-.
+    pose proof (rhe_ge (rhe v (pow10 d)) 10) as Hr. unfold B96 in Hov.
+    assert (H1 : 1 <= rhe v (pow10 d) / 10) by (apply N.div_le_lower_bound; lia). lia.
+Qed.
+
+Lemma dec_mul_nz a n r :
+  d_scale a <= 28 -> d_mant a <> 0 -> n <> 0 -> dec_mul a (dec_of_N n) = Some r -> d_mant r <> 0.
+Proof.
+  intros Hs Ha Hn. unfold dec_mul, dec_of_N. cbn [d_mant d_scale d_neg]. rewrite N.add_0_r.
+  destruct (N.eqb_spec (d_mant a) 0); [contradiction|]. destruct (N.eqb_spec n 0); [contradiction|]. cbn [orb].
+  destruct ((d_mant a <? two32) && (n <? two32)).
+  - destruct (N.ltb_spec 28 (d_scale a)) as [Hgt|Hle]; [lia|]. intros Hx. injection Hx as <-. cbn. nia.
+  - destruct (rescale (d_mant a * n) (d_scale a)) as [[m' s']|] eqn:E; [|discriminate].
+    intros Hx. injection Hx as <-. cbn. eapply rescale_nz; [| |exact E]; [nia|exact Hs].
+Qed.
+
+Lemma int_value_pos r q : dec_int_value r q -> d_mant r <> 0 -> 1 <= q.
+Proof. intros (_ & _ & Hm) Hnz. destruct (N.eq_dec q 0) as [->|]; [rewrite N.mul_0_l in Hm; contradiction|lia]. Qed.
